@@ -78,6 +78,7 @@ def gen_world(rng, tier):
     if not items:
         items.append(("sol", 0))
     lines = []
+    wide = rng.random() < 0.15
     instances = []     # expected molecules: (species index, names, positions, atomids, resids)
     resid, atomid = 1, 1
     share = rng.random() < 0.25       # numbering per complex: neighbouring residues of DIFFERENT names may carry one number
@@ -98,6 +99,10 @@ def gen_world(rng, tier):
             sp = species[idx]
             n = len(sp["atom_names"])
             pos = [[round(rng.uniform(0, 9), 3) for _ in range(3)] for _ in range(n)]
+            if wide and rng.random() < 0.4:
+                # a molecule far outside the box: values that fill their eight columns (no blank before them)
+                pos = [[round(rng.choice([rng.uniform(1000, 9999), -rng.uniform(100, 999)]), 3) if rng.random() < 0.6 else c_
+                        for c_ in p_] for p_ in pos]
             ls, nres = gen.gro_atom_lines(sp, pos, resid, atomid)
             lines += ls
             instances.append({"species": idx, "positions": pos, "atomids": list(range(atomid, atomid + n)),
